@@ -190,6 +190,14 @@ def run(rep: Report) -> None:
                 rep.check(res.is_zero(), "node-balance", f"{inst}: node {nd}", "Node.get_upstream_speed_and_flow",
                           f"flows entering the first segments of the leaving links minus (entering last-segment "
                           f"flows + origin flow) = {nzb.show(res)[:300]}", key=f"node|{name.split('(')[0]}|{nd}|{impl}")
+    # a network extended after it was validated and stepped conserves vehicles like one built in one go: mainline first, validated and stepped, then a branch attached to an interior node
+    # (CPython caching of the lookups and views, real invalidation) vs. the same network built in one go
+    from .. import balance as _B
+
+    _bad = _B.incremental_vs_direct(rep.prog)
+    rep.check(not _bad, "construction-history-invariance", "merge network built incrementally (validated and stepped in between) vs in one go",
+              "Network.step", "; ".join(_bad[:2]), key="incremental")
+
 
 
 def _f(x):
